@@ -117,12 +117,13 @@ mod proofs {
         let raw: u16 = kani::any();
         let h = Header::from(raw.to_le_bytes());
         kani::cover!(raw >> 14 == 0b11, "unassigned frame kind bits are a possible input");
+        // the match of process_inbound_frames: reaches `unreachable!("bad FrameKind")`
+        let _ = dispatch_like_process_inbound_frames(h);
         let k = h.frame_kind();
         assert!(
             k == FrameKind::OPEN || k == FrameKind::DATA || k == FrameKind::CLOSE,
             "frame_kind() is one of OPEN, DATA, CLOSE"
         );
-        let _ = dispatch_like_process_inbound_frames(h);
     }
 
     /// The same dispatcher for the headers outside F4: passes, so F4 is the only hole.
